@@ -242,9 +242,23 @@ def moveArg (i : Nat) (t : Ty) (loc : Reg) : List Instr :=
   | .r64 n, .r16 _ => [.mov 0 (vreg i), .mov 0 0, .mov n 0]
   | l, _ => [.mov l.parent (vreg i)]
 
+/-- `registers.caller_save_linux` = `arch._caller_save`: the `clobbers=` of every call instruction -/
+def callerSave : List Reg :=
+  [.r64 0, .r64 1, .r64 2, .r64 7, .r64 6, .r64 8, .r64 9, .r64 10, .r64 11,
+   .xmmD 0, .xmmD 1, .xmmD 2, .xmmD 3, .xmmD 4, .xmmD 5, .xmmD 6, .xmmD 7,
+   .xmmD 8, .xmmD 9, .xmmD 10, .xmmD 11, .xmmD 12, .xmmD 13, .xmmD 14, .xmmD 15]
+
+/-- abstract id of the virtual register holding the callee's address in an indirect call -/
+def fpVreg : Nat := 98
+
 structure CallSeq where
   /-- instructions before the `call` -/
   pre : List Instr
+  /-- `CallReg(label, …)` (call through a register) instead of `Call(label, …)` -/
+  indirect : Bool
+  /-- hardware ids of the `clobbers=` list the call instruction is created with: the registers the
+      register allocator will not keep a value in across the call -/
+  clobbers : List Nat
   /-- instructions after it -/
   post : List Instr
   stackSize : Nat
@@ -261,8 +275,9 @@ def callPost (rv : Option Ty) (total : Nat) : List Instr :=
     | none => [])
   ++ (if total ≠ 0 then [Instr.add total] else [])
 
-/-- `gen_call(frame, label, args, rv)`; `rv = none` for a procedure call -/
-def genCall (sig : List Ty) (rv : Option Ty) : Except Err CallSeq :=
+/-- `gen_call(frame, label, args, rv)`; `rv = none` for a procedure call; `indirect` when `label`
+    is a `Register64` (call through a function pointer) -/
+def genCall (sig : List Ty) (rv : Option Ty) (indirect : Bool) : Except Err CallSeq :=
   let mem := memArgs sig
   let pad := callPad mem.length
   match pushArgs mem.reverse with
@@ -270,7 +285,9 @@ def genCall (sig : List Ty) (rv : Option Ty) : Except Err CallSeq :=
   | .ok pushes =>
     let moves := (regArgs sig).flatMap (fun (i, t, l) => moveArg i t l)
     let total := callStackSize mem.length
-    .ok ⟨(if pad ≠ 0 then [Instr.sub pad] else []) ++ pushes ++ moves, callPost rv total, total⟩
+    -- `if isinstance(label, Register64): CallReg(label, clobbers=self._caller_save) else: Call(label, clobbers=self._caller_save)`
+    let clobbers := if indirect then callerSave.map Reg.parent else callerSave.map Reg.parent
+    .ok ⟨(if pad ≠ 0 then [Instr.sub pad] else []) ++ pushes ++ moves, indirect, clobbers, callPost rv total, total⟩
 
 /-! ### gen_function_enter -/
 
